@@ -16,6 +16,8 @@ import Alpaqa.Proofs.OcpLoop
 import Alpaqa.Proofs.OcpLs
 import Alpaqa.Proofs.OcpFuel
 import Alpaqa.Proofs.OcpExample
+import Alpaqa.Proofs.OcpDoc
+import Alpaqa.Proofs.OcpDescent
 
 namespace Alpaqa.Props.C06_Ocp
 open Alpaqa Alpaqa.Ocp Alpaqa.Gen
@@ -313,6 +315,62 @@ theorem ocp_result_meaning_fuelOK (O : Oracles α) (dir : Dir D α) (P : Prob α
   rw [hst]
   exact ocp_converged_iff _ _ _ _ _ _ _ _
 
+/-- **`ε` is the documented criterion of the projected-gradient data of the written-back point.**  For a
+    solve that returned from a loop head (no exception, progress callback ran), with `it` the iterate that
+    was current there (`Result.final`, also the iterate of the final callback):
+    `γ > 0`; `it.traj` is the forward oracle's roll-out of `it.u` and `it.∇ψ` the backward oracle's answer on
+    it; `it.û = Π_U(it.u − γ it.∇ψ)`, `it.p = it.û − it.u` (computed by `eval_prox_impl` itself); the returned
+    `ε` is `docCritOcp` (`Proofs/OcpDoc`: the documented measure `‖u − Π_U(u − γ∇ψ)‖` of the selected one of
+    the six supported criteria, from `docRes`) of `(γ, it.u, it.∇ψ)`; the written-back `u` is `it.û`.
+    Hypotheses: `0 < Lγ_factor`, `FuelOK` (fuel, `L > 0`), no NaN. -/
+theorem ocp_eps_is_documented (hnn : ∀ x : α, RealLike.isNaN x = false)
+    (O : Oracles α) (dir : Dir D α) (P : Prob α) (d0 : D)
+    (pr : Params α) (stop : Nat → Bool) (oot : Bool) (u0 y mu errz0 gV gQ : Vec α) (gS e0 : α)
+    (hpos : 0 < pr.LgammaFactor) (nL nτ : Nat) (hp : FuelOK pr nL nτ)
+    (hex : (run O dir P d0 pr stop oot u0 y mu errz0 gV gQ gS e0).exc = .none)
+    (hcb : (run O dir P d0 pr stop oot u0 y mu errz0 gV gQ gS e0).callbacks ≠ []) :
+    ∃ it : Iterate α,
+      (run O dir P d0 pr stop oot u0 y mu errz0 gV gQ gS e0).final = some it ∧
+      ((run O dir P d0 pr stop oot u0 y mu errz0 gV gQ gS e0).callbacks.getLast?).map (·.it) = some it ∧
+      0 < it.gamma ∧ it.traj = (O.fwd it.u).2 ∧ it.gradPsi = O.bwd it.u it.traj ∧
+      it.uhat = projGradV it.gamma it.u it.gradPsi (tile P.N P.Ulb) (tile P.N P.Uub) ∧
+      it.p = projStepV it.gamma it.u it.gradPsi (tile P.N P.Ulb) (tile P.N P.Uub) ∧
+      docCritOcp P pr.stopCrit it.gamma it.u it.gradPsi =
+        some (run O dir P d0 pr stop oot u0 y mu errz0 gV gQ gS e0).stats.eps ∧
+      ((run O dir P d0 pr stop oot u0 y mu errz0 gV gQ gS e0).wrote = true →
+        (run O dir P d0 pr stop oot u0 y mu errz0 gV gQ gS e0).u = it.uhat) := by
+  have hfuel := run_fuelOut_false O dir P d0 pr stop oot u0 y mu errz0 gV gQ gS e0 nL nτ hp
+  have hcbs := (run_callbacks_ok False O dir P d0 pr (fun h => h.elim) hpos nL nτ hp stop oot
+    u0 y mu errz0 gV gQ gS e0).2
+  rcases ocp_run_cases O dir P d0 pr stop oot u0 y mu errz0 gV gQ gS e0 tauSentinelOK hfuel with h | h | h
+  · exact absurd h.2.2.2 hcb
+  · exact absurd hex h
+  · obtain ⟨sh, eps, status, hg, hk, he, hst, hnb, hr⟩ := h
+    have hlast : ∃ cb : Callback α, cb ∈ (run O dir P d0 pr stop oot u0 y mu errz0 gV gQ gS e0).callbacks ∧
+        cb.it = sh.curr ∧
+        ((run O dir P d0 pr stop oot u0 y mu errz0 gV gQ gS e0).callbacks.getLast?) = some cb := by
+      have hc : ∃ cb : Callback α, (exitBlock P pr sh eps status u0 y mu errz0).callbacks = (cb :: sh.cbs).reverse ∧
+          cb.it = sh.curr := ⟨_, rfl, rfl⟩
+      obtain ⟨cb, hc1, hc2⟩ := hc
+      rw [hr, hc1]
+      exact ⟨cb, by simp, hc2, by simp⟩
+    obtain ⟨cb, hmem, hit, hgl⟩ := hlast
+    have hγ : 0 < sh.curr.gamma := by rw [← hit]; exact (hcbs cb hmem).gok.1
+    have hux : sh.curr.uhat = (evalProxImpl P sh.curr.gamma sh.curr.u sh.curr.gradPsi).1 :=
+      congrArg Prod.fst hg.2.1
+    have hpx : sh.curr.p = (evalProxImpl P sh.curr.gamma sh.curr.u sh.curr.gradPsi).2.1 :=
+      congrArg (fun t => t.2.1) hg.2.1
+    refine ⟨sh.curr, by rw [hr]; simp [exitBlock], by rw [hgl, Option.map_some, hit], hγ, hg.1.1, hg.1.2.2,
+      ?_, ?_, ?_, ?_⟩
+    · rw [hux, ← projStepV_eq_proj hnn]; rfl
+    · rw [hpx]; rfl
+    · rw [← epsOf_eq_docCritOcp hnn P pr sh.curr hg.2.1, he, hr]; simp [exitBlock]
+    · intro hw
+      rw [hr] at hw ⊢
+      simp only [exitBlock] at hw ⊢
+      rw [if_pos hw]
+      exact writeSolution_u _ _ _ _ _ _
+
 end field
 
 /-! ### Non-vacuity on concrete runs of `Ocp.run` (`Proofs/OcpExample`) -/
@@ -338,6 +396,19 @@ example : (rA .ProjGradNorm none).stats.status = .Converged ∧ (rA .ProjGradNor
 example : rN.stats.iterations ≤ prN.maxIter :=
   (ocp_result_meaning_fuelOK OA dirZero PA () prN (stopAt none) false [1, 1/2] [] [] [] [] [] 0 0 23 9
     fuelOK_prN (by decide +kernel)).1
+
+/-- `ocp_eps_is_documented` instantiated on the L-BFGS run `rC` (`Converged` after two iterations, nonzero
+    residual), every hypothesis discharged; the value: `ε = ‖u − Π_U(u − γ∇ψ(u))‖∞ = 80579/1024000` -/
+example : ∃ it : Iterate ℚ, (rC .ProjGradNorm none).final = some it ∧ 0 < it.gamma ∧
+    it.gradPsi = OA.bwd it.u it.traj ∧
+    docCritOcp PA .ProjGradNorm it.gamma it.u it.gradPsi = some (rC .ProjGradNorm none).stats.eps := by
+  obtain ⟨it, h1, _, h3, _, h5, _, _, h8, _⟩ := ocp_eps_is_documented (fun _ => rfl) OA (dirOf 1 3) PA ()
+    (prC .ProjGradNorm) (stopAt none) false [1, 1/2] [] [] [] [] [] 0 0 (by norm_num [prC, prA]) 23 9
+    ⟨by norm_num [prC, prA], by norm_num [prC, prA], by norm_num [prC, prA], fun _ => by norm_num [prC, prA],
+      by norm_num [prC, prA], by norm_num [prC, prA]⟩ (by decide +kernel) (by decide +kernel)
+  exact ⟨it, h1, h3, h5, h8⟩
+example : docCritOcp PA .ProjGradNorm (19/80) [1327/6400, -1067/12800] [4241/12800, 13/320]
+    = some (80579/1024000) := by decide +kernel
 
 /-- `ocp_no_progress_counter` instantiated: the direction oracle `q = 0` with strictness 0 leaves the
     iterate unchanged in every iteration; flags `[true, true, true]`, counter `3 > max_no_progress = 2` at the
